@@ -118,6 +118,32 @@ fn omh_similarity_bruteforce(a: &[u32], b: &[u32], l: usize) -> f64 {
     hits as f64 / total as f64
 }
 
+/// closed form of the order-min-hash similarity for l = 1 from the element counts alone: the lowest-ranked pair of the union
+/// is common (then both sequences spell its element), or it belongs to one sequence only - that sequence spells its element e
+/// and the other one spells e with probability count(e)/length, its own lowest pair being uniform among its pairs
+fn omh_l1_from_counts(ca: &BTreeMap<u32, u64>, cb: &BTreeMap<u32, u64>) -> f64 {
+    let la: u64 = ca.values().sum();
+    let lb: u64 = cb.values().sum();
+    let mut elems: Vec<u32> = ca.keys().chain(cb.keys()).cloned().collect();
+    elems.sort();
+    elems.dedup();
+    let get = |m: &BTreeMap<u32, u64>, e: u32| *m.get(&e).unwrap_or(&0) as f64;
+    let union: f64 = elems.iter().map(|e| get(ca, *e).max(get(cb, *e))).sum();
+    let mut p = 0.;
+    for &e in &elems {
+        let (x, y) = (get(ca, e), get(cb, e));
+        let mn = x.min(y);
+        p += mn / union;
+        p += (x - mn) / union * (y / lb as f64);
+        p += (y - mn) / union * (x / la as f64);
+    }
+    p
+}
+
+fn runs(counts: &[(u32, u64)]) -> Vec<u32> {
+    counts.iter().flat_map(|(e, c)| std::iter::repeat(*e).take(*c as usize)).collect()
+}
+
 struct PairCase {
     name: &'static str,
     a: Vec<u32>,
@@ -565,11 +591,75 @@ pub fn run(ctx: &Ctx) -> i32 {
             }
         }
     }
+    // ---- long runs: one element occurring up to 2*65537 times (occurrence numbers beyond 2^8 and 2^16), l = 1, target from
+    // the closed form in the element counts (cross-checked against the ranking enumeration on all small count vectors)
+    for xa in 0..=3u64 {
+        for ya in 0..=3u64 {
+            for xb in 0..=3u64 {
+                for yb in 0..=3u64 {
+                    if xa + ya == 0 || xb + yb == 0 {
+                        continue;
+                    }
+                    let a = runs(&[(0, xa), (1, ya)]);
+                    let b = runs(&[(0, xb), (1, yb)]);
+                    let ca: BTreeMap<u32, u64> = [(0u32, xa), (1, ya)].into_iter().filter(|x| x.1 > 0).collect();
+                    let cb: BTreeMap<u32, u64> = [(0u32, xb), (1, yb)].into_iter().filter(|x| x.1 > 0).collect();
+                    let (p, nodes) = omh_similarity(&a, &b, 1);
+                    target_nodes += nodes;
+                    crosschecked += 1;
+                    if (p - omh_l1_from_counts(&ca, &cb)).abs() > 1e-12 {
+                        println!("ENGINE-ERROR C10 l=1 closed form disagrees with the enumeration on counts {:?} / {:?}", ca, cb);
+                        return 2;
+                    }
+                }
+            }
+        }
+    }
+    let mut long_cases: Vec<(u64, u64, u64, u64)> = Vec::new(); // (a: 0^x 1^y, b: 0^z 1^w)
+    for n in [255u64, 256, 257, 65535, 65536, 65537] {
+        long_cases.push((2 * n, n, n, n));
+        long_cases.push((n + 1, 3, n, 5));
+    }
+    for (x, y, z, w) in long_cases {
+        let case = PairCase { name: "long-run", a: runs(&[(0, x), (1, y)]), b: runs(&[(0, z), (1, w)]), max_l: 1, big_l: vec![] };
+        let ca: BTreeMap<u32, u64> = [(0u32, x), (1, y)].into_iter().collect();
+        let cb: BTreeMap<u32, u64> = [(0u32, z), (1, w)].into_iter().collect();
+        let target = omh_l1_from_counts(&ca, &cb);
+        let m = 16usize;
+        configs += 1;
+        let tt = if x > 2000 { 96u64 } else { 4000 };
+        let b0 = (base << 8) + (configs << 36);
+        let Ok(emp) = empirical(&case, 1, m, tt, b0) else {
+            ctx.violation("hash_set-panic", &format!("long runs 0^{} 1^{} / 0^{} 1^{}: panic", x, y, z, w), json!({"kind": "long-run", "x": x, "y": y, "z": z, "w": w, "t": tt, "base": b0.to_string()}));
+            continue;
+        };
+        evals += 2 * tt;
+        let (mean, se0) = mean_se(&emp);
+        let se = se0.max((target * (1. - target) / (tt as f64 * m as f64)).sqrt()).max(1e-9);
+        let zv = (mean - target) / se;
+        let mut bad = zv.abs() > 6.;
+        let mut z2 = f64::NAN;
+        if bad {
+            if let Ok(e2) = empirical(&case, 1, m, 4 * tt, b0 + (1u64 << 35)) {
+                let (m2, s2) = mean_se(&e2);
+                z2 = (m2 - target) / s2.max((target * (1. - target) / (4. * tt as f64 * m as f64)).sqrt()).max(1e-9);
+                bad = z2.abs() > 6. && z2.signum() == zv.signum();
+            }
+        }
+        if bad {
+            ctx.violation(
+                "collision-probability:long-run:l=1",
+                &format!("sequences 0^{} 1^{} / 0^{} 1^{} (runs of one element), l=1, m={}: mean fraction of equal positions {:.5} over {} labellings, order-min-hash similarity {:.5} (z = {:.1}, confirm z = {:.1})", x, y, z, w, m, mean, tt, target, zv, z2),
+                json!({"kind": "long-run", "x": x, "y": y, "z": z, "w": w, "t": tt, "base": b0.to_string()}),
+            );
+        }
+        edetails.push(json!({"pair": format!("0^{} 1^{} / 0^{} 1^{}", x, y, z, w), "l": 1, "m": m, "labellings": tt, "target": target, "mean": mean, "se": se, "z": zv}));
+    }
     println!("C10 end-to-end configs={} max|z|={:.2} target-enumeration nodes={} cross-checked targets={}", configs, maxz, target_nodes, crosschecked);
     let coverage = json!({
         "evaluations": evals,
         "distinct_nontrivial": configs + 2 * n_tab,
-        "rule": "target: exact enumeration of ranking prefixes (cross-checked against all P! rankings for unions of <=8/9 pairs); tables: for every element of a block of 2^19 (2^21) the race tables of occurrences 1..3 are read from the real code (hook H4) and tested for bit-identical values across occurrences (must be 0), P(occ_i<occ_j)=1/2, equal laws across occurrences/elements/positions (two-sample KS) and zero rank correlation; end-to-end: 16 sequence pairs x l in {1,2,3,5,8,15} x m in {1,4,16,64}, T disjoint labellings each, mean fraction of equal positions within 6 standard errors of the target (exact for targets 0 and 1), confirmed on a 4x larger fresh block; the pairs with repeated elements are re-run with the no-op hasher on labels whose hashes are consecutive integers; distinct = configurations + block elements",
+        "rule": "target: exact enumeration of ranking prefixes (cross-checked against all P! rankings for unions of <=8/9 pairs); tables: for every element of a block of 2^19 (2^21) the race tables of occurrences 1..3 are read from the real code (hook H4) and tested for bit-identical values across occurrences (must be 0), P(occ_i<occ_j)=1/2, equal laws across occurrences/elements/positions (two-sample KS) and zero rank correlation; end-to-end: 16 sequence pairs x l in {1,2,3,5,8,15} x m in {1,4,16,64}, T disjoint labellings each, mean fraction of equal positions within 6 standard errors of the target (exact for targets 0 and 1), confirmed on a 4x larger fresh block; the pairs with repeated elements are re-run with the no-op hasher on labels whose hashes are consecutive integers; 12 pairs of long runs of one element (0^2n 1^n / 0^n 1^n and 0^(n+1) 1^3 / 0^n 1^5 for n = 2^8-1..2^8+1, 2^16-1..2^16+1) at l=1 against the closed form in the element counts; distinct = configurations + block elements",
         "samples": [
             {"pair": {"a": [0, 1, 0, 1], "b": [1, 0, 1, 0], "l": 2, "target": omh_similarity(&[0, 1, 0, 1], &[1, 0, 1, 0], 2).0}},
             {"pair": {"a": [0, 0, 1, 2], "b": [0, 1, 1, 2], "l": 3, "target": omh_similarity(&[0, 0, 1, 2], &[0, 1, 1, 2], 3).0}},
@@ -609,6 +699,20 @@ pub fn replay(_ctx: &Ctx, case: &Value) -> Result<(bool, String), String> {
             let z = (mean - target) / se.max(1e-9);
             let viol = if target == 0. || target == 1. { (mean - target).abs() > 1e-12 } else { z.abs() > 6. };
             Ok((viol, format!("mean {:.6} target {:.6} z {:.2}", mean, target, z)))
+        }
+        Some("long-run") => {
+            let g = |k: &str| case[k].as_u64().ok_or(k.to_string());
+            let (x, y, z, w, t) = (g("x")?, g("y")?, g("z")?, g("w")?, g("t")?);
+            let base: u64 = case["base"].as_str().ok_or("base")?.parse().map_err(|e| format!("{}", e))?;
+            let c = PairCase { name: "long-run", a: runs(&[(0, x), (1, y)]), b: runs(&[(0, z), (1, w)]), max_l: 1, big_l: vec![] };
+            let ca: BTreeMap<u32, u64> = [(0u32, x), (1, y)].into_iter().collect();
+            let cb: BTreeMap<u32, u64> = [(0u32, z), (1, w)].into_iter().collect();
+            let target = omh_l1_from_counts(&ca, &cb);
+            let emp = empirical(&c, 1, 16, t, base)?;
+            let (mean, se0) = mean_se(&emp);
+            let se = se0.max((target * (1. - target) / (t as f64 * 16.)).sqrt()).max(1e-9);
+            let zv = (mean - target) / se;
+            Ok((zv.abs() > 6., format!("mean {:.6} target {:.6} z {:.2}", mean, target, zv)))
         }
         Some("e2e-nohash") => {
             let name = case["name"].as_str().ok_or("name")?;
